@@ -232,11 +232,14 @@ Definition classify (f : bytes) : cryptpw :=
   | _ => CInvalid
   end.
 
-(* false: the tree calls sha_crypt::sha256_check on every "$5$" field; sha-crypt 0.5.0 unwraps the
-          decode of the hash field and PANICS when it is not 43 canonical hash64 characters.
-   true : a tree that first refuses such a field (the guard of /verif/fixes/C43.patch, the same as
-          the one /repo a666989 put into libs/crypto). *)
-Definition tree_fixed : bool := false.
+(* true : the tree under check contains /repo 054a9cd (= /verif/fixes/C43.patch): check_pw first
+          requires the last '$'-field of a "$5$" string to be 43 hash64 characters with a canonical
+          last one (sha256_crypt_hash_field_is_valid = KV.C30.Model.sha256_field_ok) and answers
+          false otherwise.
+   false: the originally pinned tree, which called sha_crypt::sha256_check on every "$5$" field;
+          sha-crypt 0.5.0 unwraps the decode of the hash field and PANICKED on anything else
+          (kept as check_pw_gen false / auth_fallback_gen false). *)
+Definition tree_fixed : bool := true.
 
 (* yescrypt is not modelled: [ytab] lists the (hash string, password) pairs the harness produced
    with the yescrypt hasher; every other pair is taken not to verify *)
@@ -425,6 +428,10 @@ Definition crypt_verifies (yt : ytab_t) (f cred : bytes) : bool :=
   | CYescrypt => yverify yt f cred
   | CInvalid => false
   end.
+
+(* the extra requirement of the fixed tree on "$5$" fields: a canonical 43-character hash field *)
+Definition field_guard (f : bytes) : bool :=
+  match classify f with CSha256 => KV.C30.Model.sha256_field_ok f | _ => true end.
 
 Definition fallback_legit (o : opts) (h : handler) (ct : Z) (users : list bytes) (shadow : list sent)
                           (yt : ytab_t) : bool :=
